@@ -196,7 +196,7 @@ def FragPairs (c : Cfg) (es : List (V × V)) : Prop := noResPairs es = true ∧ 
 theorem isObjType_ne (tn : String) (h : isObjType tn = true) :
     tn ≠ "Hash" ∧ tn ≠ "Sensitive" ∧ tn ≠ "Default" := by
   simp only [isObjType, objTypes, List.contains_cons, List.contains_nil, Bool.or_false, Bool.or_eq_true, beq_iff_eq] at h
-  rcases h with rfl | rfl | rfl <;> decide
+  rcases h with rfl | rfl | rfl | rfl <;> decide
 
 /-- the leaf-codec hypothesis for Binary: decoding inverts encoding -/
 def B64Ok : Prop := ∀ bs, unb64 (b64 bs) = some bs
